@@ -7,6 +7,7 @@ Require Import Fggs.Proofs.Axis_sem Fggs.Proofs.Axis_unify Fggs.Proofs.Axis_anti
 Require Import Fggs.Proofs.PTensor_sem Fggs.Proofs.PTensor_dense Fggs.Proofs.PTensor_views Fggs.Proofs.PTensor_unary.
 Require Import Fggs.Proofs.PTensor_binary Fggs.Proofs.PTensor_xval Fggs.Proofs.PTensor_transpose Fggs.Proofs.PTensor_expand.
 Require Import Fggs.Proofs.Axis_antiunify_inv.
+Require Import Fggs.Proofs.Axis_complete_gen Fggs.Proofs.Axis_typed Fggs.Proofs.Axis_total Fggs.Proofs.Axis_fuel Fggs.Proofs.Axis_mgu Fggs.Proofs.Axis_rank Fggs.Proofs.Axis_typed_check Fggs.Proofs.Axis_typed_model.
 Local Open Scope nat_scope.
 
 (** * L2: the axis algebra *)
@@ -98,6 +99,146 @@ Theorem C06_unify_complete_2d_upto6 : forall t1 t2 es fs,
   In es (patterns2 t1 t2 1) -> In fs (patterns2 t1 t2 50) -> unify_complete es fs 100.
 Proof. exact unify_complete_2d_upto6. Qed.
 Print Assumptions C06_unify_complete_2d_upto6.
+
+(** * L2, tier B unbounded: unification is complete on typed axes (DESIGN.md Appendix C)
+
+    Judgement [ty G e ps] (Proofs/Axis_typed.v): axis [e] has the flattened product type [ps] in
+    the context [G] that gives every physical axis one type; [tys] for patterns; [gprimes ps]:
+    every prime is an atom of size >= 2 or a sum type of size >= 2 whose summands are good
+    ([tgood]).  The judgement includes what [__post_init__] / [productAxis] guarantee (no physical
+    axis of size 1, no one-factor product, no product directly inside a product).
+    [tyfuel ps = 3 * tws ps + 2] is the fuel bound computed from the type. *)
+
+(** (i) no typing needed: whenever [unify] returns without having warned, success means "most
+    general unifier" and failure means "no coincidence" *)
+Theorem C06_unify_complete_nowarn : forall fuel es fs next b st',
+  length es = length fs -> (forall x, In x (es ++ fs) -> below next x) ->
+  unify_list fuel es fs (ustate0 next) = Ok (b, st') -> us_warn st' = false ->
+  forall rho, Forall (inrange rho) es -> Forall (inrange rho) fs -> map (eval rho) es = map (eval rho) fs ->
+    if b then exists rho', extends_to next rho rho' /\ inr_s rho' (us_subst st') /\ models rho' (us_subst st')
+    else False.
+Proof. exact unify_complete_nowarn. Qed.
+Print Assumptions C06_unify_complete_nowarn.
+
+(** (ii) typed patterns: [unify] neither runs out of fuel (fuel [>= tyfuel] of every dimension's
+    type) nor warns; it returns a substitution (well typed and acyclic in an extension [G'] of the
+    context) or the clean failure *)
+Theorem C06_unify_total_typed : forall G es fs pss next fuel,
+  ctx_good G -> ctx_below G next -> tys G es pss -> tys G fs pss -> Forall gprimes pss ->
+  Forall (fun ps => tyfuel ps <= fuel) pss ->
+  exists b st' G', unify_list fuel es fs (ustate0 next) = Ok (b, st') /\ us_warn st' = false /\
+                   (next <= us_next st')%positive /\ ctx_ext next G G' /\ tstate G' st'.
+Proof. exact unify_total_typed_list. Qed.
+Print Assumptions C06_unify_total_typed.
+
+(** the fuel is an artefact of the model: more fuel never changes an answer *)
+Theorem C06_unify_fuel_monotone : forall fuel fuel', fuel <= fuel' ->
+  forall es fs st r, unify_list fuel es fs st = Ok r -> unify_list fuel' es fs st = Ok r.
+Proof. exact unify_list_mono. Qed.
+Print Assumptions C06_unify_fuel_monotone.
+
+(** (iii) completeness: for typed patterns and WHATEVER the fuel, if the model answers at all it
+    has not warned, and the answer is a most general unifier (sound; every coincidence is an
+    instance, extending the environment on the fresh variables only) or, on failure, the patterns
+    have no coincidence.  Replaces the [_upto12] / [_2d_upto6] theorems (kept as a cross-check). *)
+Theorem C06_unify_complete : forall G es fs pss next fuel b st',
+  ctx_good G -> ctx_below G next -> tys G es pss -> tys G fs pss -> Forall gprimes pss ->
+  unify_list fuel es fs (ustate0 next) = Ok (b, st') ->
+  us_warn st' = false /\
+  (exists G', (next <= us_next st')%positive /\ ctx_ext next G G' /\ tstate G' st') /\
+  (forall rho, Forall (inrange rho) es -> Forall (inrange rho) fs ->
+     if b
+     then (models rho (us_subst st') -> map (eval rho) es = map (eval rho) fs) /\
+          (map (eval rho) es = map (eval rho) fs ->
+           exists rho', extends_to next rho rho' /\ inr_s rho' (us_subst st') /\ models rho' (us_subst st'))
+     else map (eval rho) es <> map (eval rho) fs).
+Proof. exact unify_typed_mgu_any_fuel. Qed.
+Print Assumptions C06_unify_complete.
+
+(** ... and with the fuel the model / the check function uses, it does answer, provided that fuel
+    is at least the type-derived bound.  OPEN (notes/UNIFY.md): dropping the side condition, i.e.
+    [unify_fuel es fs >= ] the recursion depth for ALL typed patterns; it holds on every universe
+    the harness enumerates ([C06_typed_universe_upto12]). *)
+Theorem C06_unify_complete_model_fuel_partial : forall G es fs pss next,
+  ctx_good G -> ctx_below G next -> tys G es pss -> tys G fs pss -> Forall gprimes pss ->
+  Forall (fun ps => tyfuel ps <= unify_fuel es fs) pss ->
+  exists b st', unify_list (unify_fuel es fs) es fs (ustate0 next) = Ok (b, st') /\ us_warn st' = false /\
+    (forall rho, Forall (inrange rho) es -> Forall (inrange rho) fs ->
+       if b
+       then (models rho (us_subst st') -> map (eval rho) es = map (eval rho) fs) /\
+            (map (eval rho) es = map (eval rho) fs ->
+             exists rho', extends_to next rho rho' /\ inr_s rho' (us_subst st') /\ models rho' (us_subst st'))
+       else map (eval rho) es <> map (eval rho) fs).
+Proof. exact unify_typed_mgu_model_fuel. Qed.
+Print Assumptions C06_unify_complete_model_fuel_partial.
+
+(** two environments (patterns over disjoint physical axes, as [equal] / [mul] arrange by
+    freshening): every coincidence [eval rho1 es = eval rho2 fs] is an instance of the unifier *)
+Theorem C06_unify_complete_two_envs : forall G es fs pss next fuel,
+  ctx_good G -> ctx_below G next -> tys G es pss -> tys G fs pss -> Forall gprimes pss ->
+  Forall (fun ps => tyfuel ps <= fuel) pss ->
+  (forall k, In k (flat_map fv es) -> ~ In k (flat_map fv fs)) ->
+  exists b st', unify_list fuel es fs (ustate0 next) = Ok (b, st') /\ us_warn st' = false /\
+    (forall rho1 rho2, Forall (inrange rho1) es -> Forall (inrange rho2) fs ->
+       map (eval rho1) es = map (eval rho2) fs ->
+       b = true /\ exists rho', (forall k, In k (flat_map fv es) -> rho' k = rho1 k) /\
+                                (forall k, In k (flat_map fv fs) -> rho' k = rho2 k) /\
+                                models rho' (us_subst st')).
+Proof. exact unify_typed_mgu_two_envs. Qed.
+Print Assumptions C06_unify_complete_two_envs.
+
+(** the guard on sum types cannot be dropped (new finding F24): a sum type of size 1 is a prime of
+    size 1, and [unify] warns and fails on two overlapping patterns of a type that contains one *)
+Theorem C06_unify_size1_sum_refuted :
+  let t := TProd [TSum [TAtom 2; TAtom 3]; TSum [TAtom 1]; TAtom 2] in
+  let e := Prod [Sum 0 (Phys 1 2) 3; Sum 0 unitAxis 0; Phys 2 2] in
+  let f := Prod [Sum 0 (Phys 3 2) 3; Phys 4 2] in
+  has_type e t = true /\ has_type f t = true /\ tgood t = false /\
+  (exists st', unify_list 100 [e] [f] (ustate0 10) = Ok (false, st') /\ us_warn st' = true) /\
+  (exists rho, inrange rho e /\ inrange rho f /\ eval rho e = eval rho f).
+Proof. exact unify_size1_sum_refuted. Qed.
+Print Assumptions C06_unify_size1_sum_refuted.
+
+(** the theory of typed axes used above *)
+Theorem C06_typed_numel : forall G e ps, ty G e ps -> numel e = tsizes ps.
+Proof. exact ty_numel. Qed.
+Print Assumptions C06_typed_numel.
+
+Theorem C06_typed_lookup : forall G s e ps, wts G s -> ty G e ps ->
+  exists e', lookup (lookup_fuel s) s e = Ok e' /\ ty G e' ps /\ unbound s e'.
+Proof. exact lookup_typed. Qed.
+Print Assumptions C06_typed_lookup.
+
+(** a well-typed acyclic substitution has a solution for every assignment of its unbound axes, and
+    the solution respects the sizes when the assignment does *)
+Theorem C06_typed_subst_solvable : forall G s (g : env), wts G s ->
+  exists rho, models rho s /\ forall k, assoc k s = None -> rho k = g k.
+Proof. exact model_exists. Qed.
+Print Assumptions C06_typed_subst_solvable.
+
+Theorem C06_typed_subst_fits : forall G s rho, wts G s -> models rho s ->
+  (forall k, assoc k s = None -> G k <> [] -> rho k < tsizes (G k)) -> fits G rho.
+Proof. exact model_fits. Qed.
+Print Assumptions C06_typed_subst_fits.
+
+(** the executable checker for the judgement is sound, and the universes of the bounded theorems
+    above (= the harness's typed generator) lie inside the domain of the unbounded theorem,
+    including the fuel side condition *)
+Theorem C06_ty_b_sound : forall G e ps, ty_b G e ps = true -> ty G e ps.
+Proof. exact ty_b_sound. Qed.
+Print Assumptions C06_ty_b_sound.
+
+(** the context judgement is at least as strict as the Model's context-free [has_type] *)
+Theorem C06_ty_has_type : forall G e t, ty G e (tprimes t) -> has_type e t = true.
+Proof. exact ty_has_type. Qed.
+Print Assumptions C06_ty_has_type.
+
+Theorem C06_typed_universe_upto12 : forall t e f,
+  In t (types_upto 12) -> In e (axes_of t 1) -> In f (axes_of t 50) ->
+  exists G, ctx_good G /\ ctx_below G 100 /\ tys G [e] [tprimes t] /\ tys G [f] [tprimes t] /\
+            Forall gprimes [tprimes t] /\ Forall (fun ps => tyfuel ps <= unify_fuel [e] [f]) [tprimes t].
+Proof. exact typed_universe_upto12. Qed.
+Print Assumptions C06_typed_universe_upto12.
 
 (** * L3: patterned tensors *)
 
